@@ -202,3 +202,16 @@ pub mod sched {
         }
     }
 }
+
+/// Which of the rule managers' and the node store's locks are held right now.
+pub mod locks {
+    pub fn held() -> Vec<(&'static str, bool)> {
+        let mut v = crate::flow::rule_manager::verif_locks_held();
+        v.extend(crate::hotspot::rule_manager::verif_locks_held());
+        v.extend(crate::circuitbreaker::rule_manager::verif_locks_held());
+        v.extend(crate::isolation::rule_manager::verif_locks_held());
+        v.extend(crate::system::rule_manager::verif_locks_held());
+        v.extend(crate::stat::verif_locks_held());
+        v
+    }
+}
